@@ -20,16 +20,18 @@ structure Duplex where
   ab : Sys      -- A sends, B receives: `ab.a` is endpoint A, `ab.b` is endpoint B
   ba : Sys      -- B sends, A receives: `ba.a` is endpoint B, `ba.b` is endpoint A
 
-/-- the two views hold the same two endpoints, and no `send` is between its fragments (sends are whole steps here) -/
+/-- the two views hold the same two endpoints -/
 structure Duplex.Same (d : Duplex) : Prop where
   a : d.ab.a = d.ba.b
   b : d.ab.b = d.ba.a
-  pa : d.ab.pend = []
-  pb : d.ba.pend = []
 
 inductive DOp where
-  | sendA (now : Time) (data : Bytes)     -- A's application: `send(data, sub)`
+  | sendA (now : Time) (data : Bytes)     -- A's application: `send(data, sub)` as one step (waits while another send of A holds the lock)
   | sendB (now : Time) (data : Bytes)
+  | beginA (now : Time) (data : Bytes)    -- the same call fragment by fragment: state check, lock, split …
+  | beginB (now : Time) (data : Bytes)
+  | fragA (now : Time)                    -- … and one turn of its loop; anything of either end may happen between two turns
+  | fragB (now : Time)
   | pingA (now : Time)                    -- A's keep-alive timer
   | pingB (now : Time)
   | toB (now : Time) (j : Nat)            -- the network hands B a copy of the j-th packet A ever emitted (any order, any number of times)
@@ -42,7 +44,11 @@ inductive DOp where
 /-- the step as seen in direction A→B -/
 def DOp.inAB (sub : Nat) (d : Duplex) : DOp → Option SysOp
   | .sendA now data => some (.send now data)
-  | .sendB now data => some (.bSend now data sub)
+  | .sendB now data => if d.ba.pend.isEmpty then some (.bSend now data sub) else none
+  | .beginA now data => some (.begin now data)
+  | .beginB _ _ => none
+  | .fragA now => some (.frag now)
+  | .fragB now => (d.ba.pend.head?).map (fun f => .bFrag now f)
   | .pingA now => some (.ping now)
   | .pingB now => some (.bPing now)
   | .toB now j => some (.deliverH now j)
@@ -54,8 +60,12 @@ def DOp.inAB (sub : Nat) (d : Duplex) : DOp → Option SysOp
 
 /-- the step as seen in direction B→A -/
 def DOp.inBA (sub : Nat) (d : Duplex) : DOp → Option SysOp
-  | .sendA now data => some (.bSend now data sub)
+  | .sendA now data => if d.ab.pend.isEmpty then some (.bSend now data sub) else none
   | .sendB now data => some (.send now data)
+  | .beginA _ _ => none
+  | .beginB now data => some (.begin now data)
+  | .fragA now => (d.ab.pend.head?).map (fun f => .bFrag now f)
+  | .fragB now => some (.frag now)
   | .pingA now => some (.bPing now)
   | .pingB now => some (.ping now)
   | .toB now j => (d.ab.net[j]?).map (fun p => .aRecv now p)
@@ -102,44 +112,42 @@ theorem good_stepO (env : Env) (hl : EnvLaws env) (sub : Nat) (ci : Cipher) (siz
 
 /-- the same endpoints stay the same endpoints -/
 theorem same_step (env : Env) (sub : Nat) (d : Duplex) (op : DOp) (h : d.Same) : (d.step env sub op).Same := by
-  obtain ⟨ha, hb, hpa, hpb⟩ := h
-  have ea : (!d.ab.pend.isEmpty) = false := by rw [hpa]; rfl
-  have eb : (!d.ba.pend.isEmpty) = false := by rw [hpb]; rfl
+  obtain ⟨ha, hb⟩ := h
   cases op with
   | sendA now data =>
-    refine ⟨?_, ?_, ?_, ?_⟩ <;>
-      simp only [Duplex.step, DOp.inAB, DOp.inBA, Sys.stepO, Sys.step, ea, Bool.false_eq_true, if_false, ha, hb, hpa, hpb, List.isEmpty_nil, Bool.not_true]
+    cases hp : d.ab.pend with
+    | nil => refine ⟨?_, ?_⟩ <;> simp [Duplex.step, DOp.inAB, DOp.inBA, Sys.stepO, Sys.step, hp, ha, hb]
+    | cons f fs => refine ⟨?_, ?_⟩ <;> simp [Duplex.step, DOp.inAB, DOp.inBA, Sys.stepO, Sys.step, hp, ha, hb]
   | sendB now data =>
-    refine ⟨?_, ?_, ?_, ?_⟩ <;>
-      simp only [Duplex.step, DOp.inAB, DOp.inBA, Sys.stepO, Sys.step, eb, Bool.false_eq_true, if_false, ha, hb, hpa, hpb, List.isEmpty_nil, Bool.not_true]
-  | pingA now =>
-    refine ⟨?_, ?_, ?_, ?_⟩ <;> simp only [Duplex.step, DOp.inAB, DOp.inBA, Sys.stepO, Sys.step, ha, hb, hpa, hpb]
-  | pingB now =>
-    refine ⟨?_, ?_, ?_, ?_⟩ <;> simp only [Duplex.step, DOp.inAB, DOp.inBA, Sys.stepO, Sys.step, ha, hb, hpa, hpb]
+    cases hp : d.ba.pend with
+    | nil => refine ⟨?_, ?_⟩ <;> simp [Duplex.step, DOp.inAB, DOp.inBA, Sys.stepO, Sys.step, hp, ha, hb]
+    | cons f fs => refine ⟨?_, ?_⟩ <;> simp [Duplex.step, DOp.inAB, DOp.inBA, Sys.stepO, Sys.step, hp, ha, hb]
+  | beginA now data =>
+    refine ⟨?_, ?_⟩ <;> (simp only [Duplex.step, DOp.inAB, DOp.inBA, Sys.stepO, Sys.step]; split <;> simp [ha, hb])
+  | beginB now data =>
+    refine ⟨?_, ?_⟩ <;> (simp only [Duplex.step, DOp.inAB, DOp.inBA, Sys.stepO, Sys.step]; split <;> simp [ha, hb])
+  | fragA now =>
+    cases hp : d.ab.pend with
+    | nil => refine ⟨?_, ?_⟩ <;> simp [Duplex.step, DOp.inAB, DOp.inBA, Sys.stepO, Sys.step, hp, ha, hb]
+    | cons f fs => refine ⟨?_, ?_⟩ <;> simp [Duplex.step, DOp.inAB, DOp.inBA, Sys.stepO, Sys.step, hp, ha, hb]
+  | fragB now =>
+    cases hp : d.ba.pend with
+    | nil => refine ⟨?_, ?_⟩ <;> simp [Duplex.step, DOp.inAB, DOp.inBA, Sys.stepO, Sys.step, hp, ha, hb]
+    | cons f fs => refine ⟨?_, ?_⟩ <;> simp [Duplex.step, DOp.inAB, DOp.inBA, Sys.stepO, Sys.step, hp, ha, hb]
+  | pingA now => refine ⟨?_, ?_⟩ <;> simp only [Duplex.step, DOp.inAB, DOp.inBA, Sys.stepO, Sys.step, ha, hb]
+  | pingB now => refine ⟨?_, ?_⟩ <;> simp only [Duplex.step, DOp.inAB, DOp.inBA, Sys.stepO, Sys.step, ha, hb]
   | toB now j =>
     cases hj : d.ab.net[j]? with
-    | none =>
-      refine ⟨?_, ?_, ?_, ?_⟩ <;>
-        simp only [Duplex.step, DOp.inAB, DOp.inBA, Sys.stepO, Sys.step, hj, Option.map, ha, hb, hpa, hpb]
-    | some p =>
-      refine ⟨?_, ?_, ?_, ?_⟩ <;>
-        simp only [Duplex.step, DOp.inAB, DOp.inBA, Sys.stepO, Sys.step, hj, Option.map, ha, hb, hpa, hpb]
+    | none => refine ⟨?_, ?_⟩ <;> simp only [Duplex.step, DOp.inAB, DOp.inBA, Sys.stepO, Sys.step, hj, Option.map, ha, hb]
+    | some p => refine ⟨?_, ?_⟩ <;> simp only [Duplex.step, DOp.inAB, DOp.inBA, Sys.stepO, Sys.step, hj, Option.map, ha, hb]
   | toA now j =>
     cases hj : d.ba.net[j]? with
-    | none =>
-      refine ⟨?_, ?_, ?_, ?_⟩ <;>
-        simp only [Duplex.step, DOp.inAB, DOp.inBA, Sys.stepO, Sys.step, hj, Option.map, ha, hb, hpa, hpb]
-    | some p =>
-      refine ⟨?_, ?_, ?_, ?_⟩ <;>
-        simp only [Duplex.step, DOp.inAB, DOp.inBA, Sys.stepO, Sys.step, hj, Option.map, ha, hb, hpa, hpb]
-  | ackToA now p =>
-    refine ⟨?_, ?_, ?_, ?_⟩ <;> simp only [Duplex.step, DOp.inAB, DOp.inBA, Sys.stepO, Sys.step, ha, hb, hpa, hpb]
-  | ackToB now p =>
-    refine ⟨?_, ?_, ?_, ?_⟩ <;> simp only [Duplex.step, DOp.inAB, DOp.inBA, Sys.stepO, Sys.step, ha, hb, hpa, hpb]
-  | resendA now p k =>
-    refine ⟨?_, ?_, ?_, ?_⟩ <;> simp only [Duplex.step, DOp.inAB, DOp.inBA, Sys.stepO, Sys.step, ha, hb, hpa, hpb]
-  | resendB now p k =>
-    refine ⟨?_, ?_, ?_, ?_⟩ <;> simp only [Duplex.step, DOp.inAB, DOp.inBA, Sys.stepO, Sys.step, ha, hb, hpa, hpb]
+    | none => refine ⟨?_, ?_⟩ <;> simp only [Duplex.step, DOp.inAB, DOp.inBA, Sys.stepO, Sys.step, hj, Option.map, ha, hb]
+    | some p => refine ⟨?_, ?_⟩ <;> simp only [Duplex.step, DOp.inAB, DOp.inBA, Sys.stepO, Sys.step, hj, Option.map, ha, hb]
+  | ackToA now p => refine ⟨?_, ?_⟩ <;> simp only [Duplex.step, DOp.inAB, DOp.inBA, Sys.stepO, Sys.step, ha, hb]
+  | ackToB now p => refine ⟨?_, ?_⟩ <;> simp only [Duplex.step, DOp.inAB, DOp.inBA, Sys.stepO, Sys.step, ha, hb]
+  | resendA now p k => refine ⟨?_, ?_⟩ <;> simp only [Duplex.step, DOp.inAB, DOp.inBA, Sys.stepO, Sys.step, ha, hb]
+  | resendB now p k => refine ⟨?_, ?_⟩ <;> simp only [Duplex.step, DOp.inAB, DOp.inBA, Sys.stepO, Sys.step, ha, hb]
 
 /-- both directions coupled to their channels, over the same two endpoints -/
 structure DGood (env : Env) (sub : Nat) (ciA ciB : Cipher) (sizeA sizeB startA startB : Nat) (d : Duplex) (chAB chBA : Chan) : Prop where
@@ -220,18 +228,19 @@ theorem duplex_established (env : Env) (sub startA startB : Nat) (a b : Conn)
     (hab : Established sub startA a b) (hba : Established sub startB b a) :
     DGood env sub (cipherOf a sub) (cipherOf b sub) a.fragmentSize b.fragmentSize startA startB
       { ab := Sys.fresh a b, ba := Sys.fresh b a } (Chan.init startA) (Chan.init startB) :=
-  ⟨good_of_established sub startA a b hab, good_of_established sub startB b a hba, ⟨rfl, rfl, rfl, rfl⟩⟩
+  ⟨good_of_established sub startA a b hab, good_of_established sub startB b a hba, ⟨rfl, rfl⟩⟩
 
 /-- completeness in both directions: once everything either end emitted has been released at the other, each application
     has exactly what the other one sent -/
 theorem duplex_complete {env : Env} {sub : Nat} {ciA ciB : Cipher} {sizeA sizeB startA startB : Nat} {d : Duplex} {chAB chBA : Chan}
     (h : DGood env sub ciA ciB sizeA sizeB startA startB d chAB chBA)
     (hallA : d.ab.nrel = d.ab.net.length) (hallB : d.ba.nrel = d.ba.net.length)
+    (hidleA : d.ab.pend = []) (hidleB : d.ba.pend = [])
     (hopenA : d.ab.a.state = STATE_CONNECTED) (hopenB : d.ba.a.state = STATE_CONNECTED) :
     (d.ab.b.queues[sub]?.getD []) = d.ab.accepted ∧ (d.ab.a.queues[sub]?.getD []) = d.ba.accepted := by
-  refine ⟨(good_complete h.ab hallA h.same.pa (Or.inl hopenA)).1, ?_⟩
+  refine ⟨(good_complete h.ab hallA hidleA (Or.inl hopenA)).1, ?_⟩
   rw [h.same.a]
-  exact (good_complete h.ba hallB h.same.pb (Or.inl hopenB)).1
+  exact (good_complete h.ba hallB hidleB (Or.inl hopenB)).1
 
 /-! ## the channel runs of the two directions, as lists of channel operations (for the liveness theorem) -/
 
@@ -285,6 +294,7 @@ theorem duplex_liveness (env : Env) (hl : EnvLaws env) (sub : Nat) (ciA ciB : Ci
     (hok : Duplex.runOk env sub d ops = true)
     (hopenB : (Duplex.run env sub d ops).ab.b.eof = false) (hopenA : (Duplex.run env sub d ops).ba.b.eof = false)
     (hconA : (Duplex.run env sub d ops).ab.a.state = STATE_CONNECTED) (hconB : (Duplex.run env sub d ops).ba.a.state = STATE_CONNECTED)
+    (hidleA : (Duplex.run env sub d ops).ab.pend = []) (hidleB : (Duplex.run env sub d ops).ba.pend = [])
     (hallA : ∀ j, j < (Duplex.run env sub d ops).ab.net.length →
       j ∈ arrived (wrap env ciA) sizeA (Chan.init startA) (Duplex.absAB env sub d ops))
     (hallB : ∀ j, j < (Duplex.run env sub d ops).ba.net.length →
@@ -309,8 +319,8 @@ theorem duplex_liveness (env : Env) (hl : EnvLaws env) (sub : Nat) (ciA ciB : Ci
     have hrel := all_arrived_all_released (wrap env ci) (good_cipher hl g) size hsz start hs _ hrok hcl
       (fun j hj => hall j (by rw [← hlen]; exact hj))
     exact (good_complete g (by rw [g.cpl.nrel, hrel, hlen]) hidle (Or.inl hcon)).1
-  refine ⟨one ciA sizeA startA hA hsA _ _ hg.ab hr.1 hopenB hg.same.pa hconA hallA, ?_⟩
+  refine ⟨one ciA sizeA startA hA hsA _ _ hg.ab hr.1 hopenB hidleA hconA hallA, ?_⟩
   rw [hg.same.a]
-  exact one ciB sizeB startB hB hsB _ _ hg.ba hr.2 hopenA hg.same.pb hconB hallB
+  exact one ciB sizeB startB hB hsB _ _ hg.ba hr.2 hopenA hidleB hconB hallB
 
 end Nx.L1
